@@ -8,6 +8,7 @@ import Qentem.Proofs.StrToNumPaths
 import Qentem.Proofs.StrToNumSafe
 import Qentem.Proofs.StrToNumClosed
 import Qentem.Proofs.StrToNumExpPath
+import Qentem.Proofs.StrToNumNegIter
 /-! C09 — text to number: integers exact, reals within one ulp, out-of-range rejected. -/
 namespace Qentem.Props.C09
 open Qentem.StrToNum Qentem.Round Qentem.Generated.StrToNum
@@ -441,5 +442,33 @@ example : (strToNum [57,48,48,55,49,57,57,50,53,52,55,52,48,57,57,51,101,48] 0 1
 example : (strToNum [49,55,57,55,54,57,51,49,51,52,56,54,50,51,49,53,56,101,50,57,50] 0 21).map (·.bits) = some maxFiniteBits := by decide
 example : (strToNum [50,101,51,48,56] 0 5).map (·.bits) = some infBits := by decide
 example : (strToNum [49,101,52,48,48] 0 5).map (·.kind) = some .notANumber := by decide
+
+
+/-! ### Negative-exponent pipeline: proved error bound (towards `real_within_k_ulp_neg`)
+
+`powerOfNegativeTen num x` aims at `β = num·2^(64+S)/5^x` (then `num·10^-x = β·2^-(x+64+S)`).
+With `k ≤ x/27 + 1 ≤ 14` multiply-shift steps the big integer `b` it normalises satisfies
+
+  `β·(1 − k·2^-61) − k  ≤  b  ≤  β·(1 + k·2^-61)`
+
+(stated without division below). Consequence, **on paper only**: with `bit` the top bit of `b`,
+the value handed to the final 53-bit rounding is off by less than `k/2^(bit−52) + 2^-4` units in
+the last place (`k ≤ 14`), the final truncate-and-half-up adds at most ½, and just below a power of
+two the distance counts double. That gives one ulp whenever `b ≥ 2^58` — every mantissa `≥ 256`,
+since each step at most halves `b` — and a bound of a few ulps for one- and two-digit mantissas
+with exponents near −320 (`b ≈ 2^54.7`), where the observed distance is still ≤ 1. Formalising
+this needs the rational-valued analogue of `raw_close` (binade crossing in both directions, the
+subnormal branch of `negFinish`) and is **not** done, so `real_within_one_ulp` stays an open
+`Prop` for negative net exponents and is searched by the oracle. -/
+theorem negScale_error_bound (num x : Nat) (hn : num < 2 ^ 64) (hx : x ≤ 2 ^ 20) :
+    ∃ b S k, negScale num x = some (b, x + 64 + S) ∧ k ≤ x / 27 + 1 ∧
+      b * 5 ^ x * 2 ^ 61 ≤ num * 2 ^ (64 + S) * (2 ^ 61 + k) ∧
+      num * 2 ^ (64 + S) * 2 ^ 61 ≤ (b + k) * 5 ^ x * (2 ^ 61 + k) :=
+  negScale_error num x hn hx
+
+/-- instance: `1e-5` — `b = 12089258196146291748`, `S = 11`, one step; both inequalities hold with room -/
+example : negScale 1 5 = some (12089258196146291748, 5 + 64 + 11) ∧
+    12089258196146291748 * 5 ^ 5 * 2 ^ 61 ≤ 1 * 2 ^ (64 + 11) * (2 ^ 61 + 1) ∧
+    1 * 2 ^ (64 + 11) * 2 ^ 61 ≤ (12089258196146291748 + 1) * 5 ^ 5 * (2 ^ 61 + 1) := by decide
 
 end Qentem.Props.C09
